@@ -111,6 +111,21 @@ def check_region(ctx, case, L, region, pts, use_flags, light=False):
             ctx.violation("masked_point_indexed", {"pt": pts[i], "got": [int(k) for k in o.value]}, mini(i))
         elif not isinstance(o.exc, ValueError):
             ctx.unexpected(o, "get_index_of_masked", mini(i))
+    # the same coordinates handed over as Python lists / tuples instead of arrays: same answers
+    if idx is not None and un:
+        sub = un[:: max(1, len(un) // 50)]
+        for cname, conv in (("list", list), ("tuple", tuple)):
+            o = call(region.get_index_of, conv(float(lons[i]) for i in sub), conv(float(lats[i]) for i in sub))
+            want_sub = [idx[un.index(i)] for i in sub]
+            if not o.ok:
+                ctx.unexpected(o, "get_index_of:" + cname)
+            elif [int(k) for k in o.value] != want_sub:
+                ctx.violation("lookup_depends_on_container:" + cname, {"n": len(sub)}, mini(sub[0]))
+        o = call(region.get_masked, [float(x) for x in lons], [float(y) for y in lats])
+        if not o.ok:
+            ctx.unexpected(o, "get_masked:list")
+        elif not numpy.array_equal(numpy.asarray(o.value).astype(bool), masked):
+            ctx.violation("masking_depends_on_container:list", None)
     # and unmasked single-point lookups agree with the vector lookup
     if idx is not None:
         step = max(1, len(un) // (30 if light else 120))
